@@ -76,6 +76,8 @@ def merge(total, res):
         if len(s) < 6:
             s.append(x)
     total["task_wall"] = total.get("task_wall", 0.0) + res.get("wall", 0.0)
+    for run, d in (res.get("digests") or {}).items():
+        total.setdefault("digests", {}).setdefault(run, {}).update(d)
 
 
 def fresh_replay(path, times=2, hashseed=None):
